@@ -45,7 +45,7 @@ def tool_cases(draw, name, tier, cfaults=True):
     if name != "iter_sentinel":
         for s in case["srcs"]:
             s["fl"] = draw(st.sampled_from(["agen", "aclass", "aplain", "aclass", "aclass_noclose", "agenlike", "aproxy",
-                                             "areiter", "alateclose", "agencoro"]))
+                                             "areiter", "alateclose", "agencoro", "aclass_cm"]))
             s["eqsrc"] = draw(st.sampled_from([False] * 2 + [True, "unhashable"]))
             s["falsy"] = draw(st.integers(0, 3)) == 0
             s["susp"] = draw(st.integers(1, 2))
